@@ -9,14 +9,14 @@ From NV Require Import Model.Base Model.Select Proofs.SelectProofs.
 From Coq Require Import Permutation.
 
 Theorem C15_source_tie :
-  selection_fingerprint = "c6e3d01a1a50e5fbb6041a50fa970e02b1b0167d4b1e35a410bfa4cbf83982e1"%string.
+  selection_fingerprint = "2feb637859ee49b9e712a7193efd11d3468e726dce9252d1f10c8fe69b7cc4d7"%string.
 Proof. exact selection_code_pinned. Qed.
 Print Assumptions C15_source_tie.
 
 Theorem C15_tables_tie :
   glob_cwd_pattern = "**/*.[ch]"%string /\ glob_cwd_recursive = true /\
   glob_dir_pattern = "/**/*.[ch]"%string /\ glob_dir_recursive = true /\
-  glob_cwd_last = glob_dir_last /\
+  glob_cwd_last = glob_dir_last /\ glob_cwd_files_only = true /\ glob_dir_files_only = true /\
   accepted_suffixes = [s ".c"; s ".h"] /\
   test_order = ["not path.exists()"; "path.is_file()"; "path.suffix not in ('.c', '.h')"; "path.is_dir()"]%string /\
   exit_missing = 1 /\ exit_bad_suffix = None /\ exit_git_fatal = 0 /\
@@ -47,7 +47,8 @@ Theorem C15_select_sound : forall root cwd check_ignore g args fs ms,
 Proof. exact select_sound. Qed.
 Print Assumptions C15_select_sound.
 
-(* all wanted files are checked, each once per mention - outside the two known findings *)
+(* all wanted files are checked, each once per mention - outside the known finding C15-dot-names-skipped: the guard
+   (`guarded`) only asks that no name below a named directory starts with '.'; directories named *.c / *.h are covered *)
 Theorem C15_select_complete_partial : forall root cwd check_ignore args,
   wfb root = true -> (exists ch, lookup root cwd = Some (Dir ch)) ->
   (forall a, In a (eff_args args) -> guarded root cwd a = true) ->
@@ -99,13 +100,17 @@ Theorem C15_select_terminates : forall root cwd check_ignore g args,
 Proof. exact select_terminates. Qed.
 Print Assumptions C15_select_terminates.
 
-(* known finding C15-dir-named-like-source *)
-Theorem C15_dir_named_like_source_refuted :
-  exists root cwd args fs ms p,
-    wfb root = true /\ select root cwd always_kept false args = Ok (Selected fs ms) /\
-    wanted_files root cwd args = [p] /\ map (apath cwd) fs = [p; p].
-Proof. exact dir_named_like_source_refuted. Qed.
-Print Assumptions C15_dir_named_like_source_refuted.
+(* fixed finding C15-dir-named-like-source: the former witness (d/lib.c/x.c, nested d/lib.c/inc.h/y.h) is inside the guard of
+   C15_select_complete_partial; every file is checked once, with argument d and with no argument from inside d *)
+Theorem C15_dir_named_like_source_once :
+  exists fs ms,
+    wfb tree_lib = true /\ guarded tree_lib [] (A_ "d") = true /\
+    select tree_lib [] always_kept false [A_ "d"] = Ok (Selected fs ms) /\
+    map (apath []) fs = [[s "d"; s "z.c"]; [s "d"; s "lib.c"; s "x.c"]; [s "d"; s "lib.c"; s "inc.h"; s "y.h"]] /\
+    Permutation (map (apath []) fs) (wanted_files tree_lib [] [A_ "d"]) /\
+    select tree_lib [s "d"] always_kept false [] = Ok (Selected (map (fun f => mkitem (skipn 2 (i_raw f)) false (tl (i_comps f))) fs) ms).
+Proof. exact dir_named_like_source_once. Qed.
+Print Assumptions C15_dir_named_like_source_once.
 
 (* known finding C15-dot-names-skipped *)
 Theorem C15_dot_names_skipped_refuted :
